@@ -181,15 +181,38 @@ func runCheck(prop, tier, repo, verif string, verbose, writeEv bool) int {
 	w.computeSweep()
 	run := generate(w, prop)
 	run.tier = tier
-	qt, st := 10*time.Second, 30*time.Second
+	qt, st := 6*time.Second, 12*time.Second
 	all := false
 	if tier == "thorough" {
 		qt, st = 30*time.Second, 60*time.Second
 		all = true
 	}
 	dischargeAll(run.obls, runtime.NumCPU(), qt, st, all)
+	secondChance(run.obls, qt, st)
 	run.wall = time.Since(t0).Seconds()
 	return report(run, verif, verbose, writeEv)
+}
+
+// secondChance re-runs obligations that ended without a definite answer, a few at a time and with
+// longer limits, so that machine load during the parallel pass cannot turn into an alarm.
+func secondChance(obls []*Obligation, qt, st time.Duration) {
+	var again []*Obligation
+	for _, o := range obls {
+		if !o.ok() && o.Status != "sat" && o.Status != "unsat" {
+			again = append(again, o)
+		}
+	}
+	if len(again) == 0 || len(again) > 200 {
+		return
+	}
+	first := make(map[*Obligation]float64)
+	for _, o := range again {
+		first[o] = o.Seconds
+	}
+	dischargeAll(again, 4, 3*qt, 3*st, false)
+	for _, o := range again {
+		o.Seconds += first[o]
+	}
 }
 
 func writeLoadFailure(verif, prop string, err error) string {
